@@ -45,6 +45,10 @@ type PeerPlan struct {
 	// Claim, if > 0, is the height a stale peer announces in its version
 	// message (more than it can serve).
 	Claim int32 `json:",omitempty"`
+	// HdrBatch > 0 caps the headers per headers message of this peer; DelayMs
+	// > 0 delays each of its responses.
+	HdrBatch int `json:",omitempty"`
+	DelayMs  int `json:",omitempty"`
 }
 
 // Plan of a convergence scenario.
@@ -288,6 +292,7 @@ func Build(p Plan) *Built {
 	}
 	b := &Built{W: w, Plan: p, Trunk: trunk, stopBg: make(chan struct{})}
 	for _, pp := range p.Peers {
+		first := len(w.Peers)
 		switch pp.Kind {
 		case BHonest:
 			b.Honest = append(b.Honest, w.AddPeer(tip))
@@ -351,6 +356,14 @@ func Build(p Plan) *Built {
 			w.AddPeer(tip).Services = wire.SFNodeNetwork | wire.SFNodeWitness
 		case BNoWitness:
 			w.AddPeer(tip).Services = wire.SFNodeNetwork | wire.SFNodeCF
+		}
+		for _, pr := range w.Peers[first:] {
+			if pp.HdrBatch > 0 {
+				pr.HdrBatch = pp.HdrBatch
+			}
+			if pp.DelayMs > 0 {
+				pr.Delay = time.Duration(pp.DelayMs) * time.Millisecond
+			}
 		}
 	}
 	return b
